@@ -26,8 +26,13 @@ structure AccSpec where
 structure SpecSt where
   schemas : List Schema := []
   accounts : Map String AccSpec := []
-  txMeta : Map Nat Meta := []
+  /-- (transaction id, current metadata), in creation order -/
+  txMeta : List (Nat × Meta) := []
   deriving DecidableEq, Repr, Inhabited
+
+/-- Rewrite the metadata of transaction `id`. -/
+def updTxMeta (l : List (Nat × Meta)) (id : Nat) (g : Meta → Meta) : List (Nat × Meta) :=
+  l.map fun e => if e.1 = id then (e.1, g e.2) else e
 
 /-- Chart defaults of `address` under schema version `v` ("" = no schema). -/
 def specDefaults (schemas : List Schema) (v address : String) : Meta :=
@@ -40,8 +45,12 @@ def specDefaults (schemas : List Schema) (v address : String) : Meta :=
 def specTouch (schemas : List Schema) (v : String) (ts ins : Time) (accounts : Map String AccSpec)
     (address : String) (m : Meta) : Map String AccSpec :=
   match accounts.get? address with
-  | some a => accounts.insert address
-      { a with metadata := metaMerge a.metadata m, firstUsage := if ts < a.firstUsage then ts else a.firstUsage }
+  | some a =>
+    -- nothing to lower, nothing new to say: the row is left alone
+    if decide (ts < a.firstUsage) || !metaContains a.metadata m then
+      accounts.insert address
+        { a with metadata := metaMerge a.metadata m, firstUsage := if ts < a.firstUsage then ts else a.firstUsage }
+    else accounts
   | none => accounts.insert address
       { metadata := metaMerge (specDefaults schemas v address) m, firstUsage := ts, insertionDate := ins }
 
@@ -49,7 +58,9 @@ def specTouch (schemas : List Schema) (v : String) (ts ins : Time) (accounts : M
 def specSave (schemas : List Schema) (v : String) (date : Time) (accounts : Map String AccSpec)
     (address : String) (m : Meta) : Map String AccSpec :=
   match accounts.get? address with
-  | some a => accounts.insert address { a with metadata := metaMerge a.metadata m }
+  | some a =>
+    if metaContains a.metadata m then accounts
+    else accounts.insert address { a with metadata := metaMerge a.metadata m }
   | none => accounts.insert address
       { metadata := metaMerge (specDefaults schemas v address) m, firstUsage := date, insertionDate := date }
 
@@ -61,21 +72,17 @@ def specStep (st : SpecSt) (l : Log) : SpecSt :=
       accounts := (accountsToUpsert tx.postings am).foldl (fun acc a =>
         specTouch st.schemas l.schemaVersion tx.timestamp tx.insertedAt acc a
           (match am.get? a with | some m => m | none => [])) st.accounts,
-      txMeta := st.txMeta.insert tx.id tx.metadata }
-  | .reverted _ rev => { st with txMeta := st.txMeta.insert rev.id rev.metadata }
+      txMeta := st.txMeta ++ [(tx.id, tx.metadata)] }
+  | .reverted _ rev => { st with txMeta := st.txMeta ++ [(rev.id, rev.metadata)] }
   | .savedMeta (.account a) m => { st with accounts := specSave st.schemas l.schemaVersion l.date st.accounts a m }
   | .savedMeta (.transaction id) m =>
-    { st with txMeta := match st.txMeta.get? id with
-                        | some old => st.txMeta.insert id (metaMerge old m)
-                        | none => st.txMeta }
+    { st with txMeta := updTxMeta st.txMeta id (fun old => if metaContains old m then old else metaMerge old m) }
   | .deletedMeta (.account a) key =>
     { st with accounts := match st.accounts.get? a with
                           | some x => st.accounts.insert a { x with metadata := x.metadata.erase key }
                           | none => st.accounts }
   | .deletedMeta (.transaction id) key =>
-    { st with txMeta := match st.txMeta.get? id with
-                        | some old => st.txMeta.insert id (old.erase key)
-                        | none => st.txMeta }
+    { st with txMeta := updTxMeta st.txMeta id (fun old => if old.contains key then old.erase key else old) }
 
 /-- The reference reading of a journal (logs in id order). -/
 def specOf (logs : List Log) : SpecSt := logs.foldl specStep {}
@@ -84,7 +91,6 @@ def specOf (logs : List Log) : SpecSt := logs.foldl specStep {}
 def projAccounts (d : Db) : Map String AccSpec :=
   d.accounts.map fun e => (e.1, { metadata := e.2.metadata, firstUsage := e.2.firstUsage, insertionDate := e.2.insertionDate })
 
-def projTxMeta (d : Db) : Map Nat Meta :=
-  d.txs.foldl (fun m t => m.insert t.id t.metadata) []
+def projTxMeta (d : Db) : List (Nat × Meta) := d.txs.map fun t => (t.id, t.metadata)
 
 end Ledger.Ctrl
